@@ -571,6 +571,45 @@ def gen_facade(mods):
         unknown.append("SCSI.__init_opcode: unrecognised shape")
         table = []
     lines.append("Definition attach_table : list (list N * string) := [%s].\n" % "; ".join(table))
+    # ---- facade state: every store to an attribute of `self` in every function of the class (also dunder methods and
+    # property setters), as  attribute := parameter | attribute | anything else (unknown); and what the blocksize getter returns
+    def sx(node, params):
+        if isinstance(node, ast.Name) and node.id in params:
+            return "SxParam %s" % coq_str(node.id)
+        d = dotted(node) or ""
+        if d.startswith("self.") and d.count(".") == 1:
+            return "SxAttr %s" % coq_str(d.split(".")[1])
+        return "SxOther %s" % coq_str(src_of(node, mod.text)[:80])
+    writes, getter = [], "SxOther \"no blocksize property\""
+    for fn in cls.body if cls else []:
+        if not isinstance(fn, ast.FunctionDef):
+            continue
+        params = [a.arg for a in fn.args.args[1:]]
+        deco = [dotted(d) or "" for d in fn.decorator_list]
+        label = fn.name + (".setter" if any(d.endswith(".setter") for d in deco) else (".getter" if "property" in deco else ""))
+        ws = []
+        for node in ast.walk(fn):
+            tgts = []
+            if isinstance(node, ast.Assign):
+                tgts = [(t, node.value) for t in node.targets]
+            elif isinstance(node, (ast.AugAssign, ast.AnnAssign)) and node.value is not None:
+                tgts = [(node.target, node)]
+            for t, v in tgts:
+                d = dotted(t) or ""
+                if d.startswith("self.") and d.count(".") == 1:
+                    ws.append("(%s, %s)" % (coq_str(d.split(".")[1]), sx(v, params)))
+            if isinstance(node, ast.Call) and (dotted(node.func) or "") in ("setattr", "self.__dict__.update", "self.__setattr__", "object.__setattr__"):
+                ws.append("(\"?\", SxOther %s)" % coq_str(src_of(node, mod.text)[:80]))
+        if ws:
+            writes.append("(%s, [%s])" % (coq_str(label), "; ".join(ws)))
+        if fn.name == "blocksize" and "property" in deco:
+            body = [st for st in fn.body if not (isinstance(st, ast.Expr) and isinstance(st.value, ast.Constant))]
+            if len(body) == 1 and isinstance(body[0], ast.Return) and body[0].value is not None:
+                getter = sx(body[0].value, params)
+            else:
+                getter = "SxOther %s" % coq_str("; ".join(src_of(st, mod.text) for st in body)[:80])
+    lines.append("Definition facade_state_writes : list (string * list (string * sx)) := [\n  %s].\n" % ";\n  ".join(writes))
+    lines.append("Definition facade_blocksize_get : sx := %s.\n" % getter)
     lines.append("Definition unknown_facade : list string := [" + "; ".join(coq_str(u) for u in unknown) + "].\n")
     return "\n".join(lines), dict(methods=methods, attach_table=table, unknown=unknown)
 
